@@ -17,7 +17,7 @@ var props = map[string]propSpec{
 		"the stage in front of the forwarder (httputil.ReverseProxy's copy loop) is not part of this harness; it is covered by the agent-level harness",
 	}},
 	"C06": {Level: "fault_enumeration", Harnesses: []harnessSpec{
-		{Name: "fwd", Quick: 90, Thorough: 1500, Args: []string{"-prop", "C06"}},
+		{Name: "fwd", Quick: 200, Thorough: 1800, Args: []string{"-prop", "C06"}},
 	}, Assume: []string{
 		"the proxy endpoint is a scripted http.RoundTripper; 'lingering' models net/http's documented freedom to keep reading the request body after RoundTrip returns (one more Read, as the transport's write loop does)",
 		"fault plans: up to 3 attempts, kinds {5xx, connection error}, read positions {0,1,17,4095,4096,4097,all}",
